@@ -31,10 +31,10 @@ Theorem C16_resize_axis_blocks (a : nd) (axis size : nat) (c : Z) :
 Proof. exact (resize_axis_blocks a axis size c). Qed.
 Print Assumptions C16_resize_axis_blocks.
 
-(* after ANY call history with ellipsis-first layouts, both expand conventions, for the collection
-   and its linked child: cached shape = recomputation, per-array broadcast shapes coherent *)
-Theorem C16_cache_reachable (app : bool) (h : list op) :
-  List.Forall op_first h -> CacheInvS (run (start app) h).
+(* after ANY call history (all layouts, all flags, both expand conventions), for the collection
+   and its linked child: cached shape = recomputation, per-array broadcast shapes coherent,
+   stored layouts have exactly one ellipsis and the arrays enough axes *)
+Theorem C16_cache_reachable (app : bool) (h : list op) : CacheInvS (run (start app) h).
 Proof. exact (cache_reachable app h). Qed.
 Print Assumptions C16_cache_reachable.
 
@@ -46,8 +46,8 @@ Print Assumptions C16_copy_equal.
 (* ---- the full invariant.  Inv c = cache invariant + every stored broadcast part and the default
    have no empty axis and are broadcast-compatible with the cached common shape.
    Initial collection, every operation that returns normally, every call history.
-   Precondition [ok_run] (checked call by call on the state it is applied to): explicit layouts are
-   ellipsis-first, no empty axes, check= not disabled by the caller, and an update that does not fit
+   All layouts with one ellipsis (anywhere).  Precondition [ok_run] (checked call by call on the
+   state it is applied to): no empty axes, check= not disabled by the caller, and an update that does not fit
    in place inserts an array which would have passed check_shape (the code inserts it unchecked:
    C16_update_unchecked_refuted shows the clause fails without this restriction). *)
 Theorem C16_inv_init (app : bool) : Inv (init app).
@@ -64,49 +64,51 @@ Theorem C16_inv_reachable_partial (app : bool) (h : list op) :
 Proof. exact (inv_reachable app h). Qed.
 Print Assumptions C16_inv_reachable_partial.
 
-(* under the invariant every stored array is returned by get with the collection's common shape
-   in its broadcast axes followed by its own sizes of the fixed / named / free axes *)
+(* under the invariant every stored array is returned by get: own sizes of the items before the
+   ellipsis, the collection's common shape in the broadcast axes, own sizes of the items after it *)
 Theorem C16_inv_get (c : coll) (nm : nat) (e : entry) :
   Inv c -> lookup nm (c_arrays c) = Some e ->
-  exists r rest,
-    get c nm true = Ok (Some r) /\ e_lay e = LEll :: rest /\
-    shp r = c_shape c ++ skipn (length (shp (e_arr e)) - length rest) (shp (e_arr e)).
+  exists r pre rest,
+    get c nm true = Ok (Some r) /\ e_lay e = pre ++ LEll :: rest /\
+    shp r = firstn (length pre) (shp (e_arr e)) ++ c_shape c ++
+            skipn (length (shp (e_arr e)) - length rest) (shp (e_arr e)).
 Proof. exact (inv_get c nm e). Qed.
 Print Assumptions C16_inv_get.
 
-(* shape-incompatible insertions raise, for ellipsis-first layouts *)
-Theorem C16_set_incompatible_raises_first (c : coll) (name : nat) (a : nd) (rest : layout) :
-  count_ell rest = 0 -> length rest <= length (shp a) ->
-  (exists i, dim_ok (vw (c_app c) (firstn (length (shp a) - length rest) (shp a)) i)
-                    (vw (c_app c) (c_shape c) i) = false) ->
-  set c name a (Some (LEll :: rest)) false true = Err EValue.
-Proof. exact (set_incompatible_raises c name a rest). Qed.
-Print Assumptions C16_set_incompatible_raises_first.
+(* shape-incompatible insertions raise: every layout with one ellipsis, anywhere (repaired check_shape) *)
+Theorem C16_set_incompatible_raises (c : coll) (name : nat) (a : nd) (l : layout) :
+  count_ell l = 1 -> length l <= length (shp a) + 1 ->
+  (exists i, dim_ok (vw (c_app c) (shared_axes (shp a) l) i) (vw (c_app c) (c_shape c) i) = false) ->
+  set c name a (Some l) false true = Err EValue.
+Proof. exact (set_incompatible_raises c name a l). Qed.
+Print Assumptions C16_set_incompatible_raises.
 
-(* non-vacuity: a 10-call history (set with resize, link, resize, in-place update, broadcast,
+(* regressions of the two repaired defects, evaluated on the model *)
+Theorem C16_set_incompatible_nonleading_example :
+  step (run (start false) [OMain (OBroadcast [3])])
+       (OMain (OSet 2 (zeros [3; 2]) (Some [LName 0; LEll]) false true)) = Err EValue.
+Proof. exact set_incompatible_nonleading_example. Qed.
+
+Theorem C16_update_0d_example :
+  let s := run (start false) [OMain (OSet 0 (mkNd [] [7%Z]) None false true);
+                              OMain (OUpdate 0 (mkNd [] [8%Z]) false)] in
+  get (main s) 0 true = Ok (Some (mkNd [1] [8%Z])).
+Proof. exact update_0d_example. Qed.
+
+(* non-vacuity: an 11-call history (set with resize, link, resize, set with ['n', ...], in-place update, broadcast,
    expand, copy, reduce, pop) meets the precondition, every call returns, every get succeeds *)
 Example C16_nonvacuous :
   ok_run (start true) demo_history /\ all_ok (start true) demo_history = true /\
   gets_ok (main (run (start true) demo_history)) = true.
 Proof. exact demo_ok. Qed.
 
-(* clauses the faithful model refutes (each replayed on the implementation by props/c16.py) *)
-Theorem C16_set_incompatible_raises_refuted :
-  exists app h, all_ok (start app) h = true /\ get (main (run (start app) h)) 2 true = Err EValue.
-Proof. exact set_incompatible_raises_refuted. Qed.
-Print Assumptions C16_set_incompatible_raises_refuted.
-
+(* clauses the faithful model still refutes (known findings; each replayed on the implementation
+   by props/c16.py) *)
 Theorem C16_update_unchecked_refuted :
-  exists app h, List.Forall op_first h /\ all_ok (start app) h = true /\
+  exists app h, all_ok (start app) h = true /\
                 get (main (run (start app) h)) 1 true = Err EValue.
 Proof. exact update_unchecked_refuted. Qed.
 Print Assumptions C16_update_unchecked_refuted.
-
-Theorem C16_update_0d_refuted :
-  exists app h v, all_ok (start app) h = true /\
-    step (run (start app) h) (OMain (OUpdate 0 v false)) = Err EIndex.
-Proof. exact update_0d_refuted. Qed.
-Print Assumptions C16_update_0d_refuted.
 
 Theorem C16_pop_axes_stale :
   exists app h, all_ok (start app) h = true /\
@@ -115,7 +117,7 @@ Proof. exact pop_axes_stale. Qed.
 Print Assumptions C16_pop_axes_stale.
 
 Theorem C16_update_named_axis_refuted :
-  exists app h, List.Forall op_first h /\ all_ok (start app) h = true /\
+  exists app h, all_ok (start app) h = true /\
     let c := main (run (start app) h) in
     option_map (fun e => shp (e_arr e)) (lookup 0 (c_arrays c)) = Some [5] /\
     option_map (fun e => shp (e_arr e)) (lookup 1 (c_arrays c)) = Some [3] /\
@@ -125,7 +127,7 @@ Proof. exact update_named_axis_refuted. Qed.
 Print Assumptions C16_update_named_axis_refuted.
 
 Theorem C16_link_child_refuted :
-  exists app h, List.Forall op_first h /\ all_ok (start app) h = true /\
+  exists app h, all_ok (start app) h = true /\
     match child (run (start app) h) with Some ch => get ch 0 true = Err EValue | None => False end.
 Proof. exact link_child_refuted. Qed.
 Print Assumptions C16_link_child_refuted.
